@@ -73,7 +73,7 @@ REG = {
                         "batch FRI (batch_fri/verifier.rs) is not in this run"],
     },
     "C03": {
-        "families": [("S", "fri"), ("S", "plonkv"), ("S", "transcript", None, r"^C04\.S\.transcript\.plonk\.")],
+        "families": [("S", "fri"), ("S", "plonkv", None, r"^C03\."), ("S", "transcript", None, r"^C04\.S\.transcript\.plonk\.")],
         "explanation": (
             "Bounded symbolic verification of mechanisms (DESIGN.md section 5, C03): element-by-element binding of the FRI "
             "part of a proof. The real verify_fri_proof runs in accept-path mode on a fully symbolic proof (ideal-hash "
